@@ -18,6 +18,12 @@
        ph: phase afterwards, 0 idle | 1 prepared (transaction open) | 2 committed (postCommit pending)
      (qa rnd addr obs) (qr rnd addr cidx obs) (qk rnd #key obs) (qc rnd cidx ctype obs)
        obs: (ok ...) | retry | (err n)
+     (sa rnd addr) (sr rnd addr cidx) (sk rnd #key)
+       a public lookup whose goroutine is held between its DB read and the queueing of what it read
+       for the base cache (only emitted when the lookup did go to the DB)
+     (la space n obs)
+       the n-th held reader of a space (0 accounts, 1 resources, 2 KV) is released: its cache write
+       lands now, obs is the answer it returns
      (za rnd addr obs) (zk rnd #key obs) (zc rnd cidx ctype obs)
        oracle only: a public lookup for round rnd that had to wait for a postCommit finally answered obs
        (the retry itself appears as a plain q.. at the round the Go code moved the lookup to)
@@ -25,6 +31,10 @@
         ((addr rnd) ...) ((addr cidx rnd) ...) ((#key rnd) ...))
        dump: cachedDBRound, len(deltas), the four modified maps with their reference counts,
        the three base caches as sets of (key, round) (their LRU order shows through (x ...))
+
+   A case in which a held reader is released after the DB round moved on and an answer then
+   contradicts the history carries the signature late_pending_cache_write (the original
+   flushPendingWrites; the model is the repaired flushPendingWritesSince).
 
    [spec_ok] never looks at the model: it folds the deltas of the (b ...) operations
    ([state_at]) and compares every (ok ...) answer with the projection of that state; errors
@@ -178,17 +188,20 @@ Record cst := mkCst {
   c_bad : bool;              (* unparsable *)
   c_nok : nat;               (* (ok ...) answers seen *)
   c_ncommit : nat;           (* postCommits performed by the implementation *)
-  c_nwin : nat }.            (* answers obtained while a commit was between transaction and postCommit *)
+  c_nwin : nat;              (* answers obtained while a commit was between transaction and postCommit *)
+  c_stalled : list (nat * (term * term) * nat);
+                             (* held readers: space, (model's answer, the history's answer), DB round *)
+  c_late : bool }.           (* a held reader was released after the DB round had moved on *)
 
 Definition upd_model (c : cst) (s : st) (corr : bool) : cst :=
   mkCst s (c_hist c) (c_iR c) (c_ind c) (c_iph c) (c_spec c) (c_corr c && corr) (c_bad c)
-        (c_nok c) (c_ncommit c) (c_nwin c).
+        (c_nok c) (c_ncommit c) (c_nwin c) (c_stalled c) (c_late c).
 Definition set_bad (c : cst) : cst :=
   mkCst (c_st c) (c_hist c) (c_iR c) (c_ind c) (c_iph c) (c_spec c) (c_corr c) true
-        (c_nok c) (c_ncommit c) (c_nwin c).
+        (c_nok c) (c_ncommit c) (c_nwin c) (c_stalled c) (c_late c).
 Definition set_iph (c : cst) (ph : Z) (committed : bool) : cst :=
   mkCst (c_st c) (c_hist c) (c_iR c) (c_ind c) ph (c_spec c) (c_corr c) (c_bad c)
-        (c_nok c) (if committed then S (c_ncommit c) else c_ncommit c) (c_nwin c).
+        (c_nok c) (if committed then S (c_ncommit c) else c_ncommit c) (c_nwin c) (c_stalled c) (c_late c).
 
 Definition steps (s : st) (ops : list op) : st * bool :=
   fold_left (fun acc o => let (s1, r) := step (fst acc) o in
@@ -212,7 +225,7 @@ Definition chk_query (c : cst) (o : op) (rnd : nat) (obs spec : term) : cst :=
   mkCst s1 (c_hist c) (c_iR c) (c_ind c) (c_iph c) (c_spec c && ok)
         (c_corr c && term_eqb (out_term r) obs) (c_bad c)
         (if isok then S (c_nok c) else c_nok c) (c_ncommit c)
-        (if isok && (c_iph c =? 2)%Z then S (c_nwin c) else c_nwin c).
+        (if isok && (c_iph c =? 2)%Z then S (c_nwin c) else c_nwin c) (c_stalled c) (c_late c).
 
 (* the final answer of a lookup that waited: the value for the round asked for, or an error if
    that round is no longer served *)
@@ -223,7 +236,38 @@ Definition chk_late (c : cst) (rnd : nat) (obs spec : term) : cst :=
             | _ => false
             end in
   mkCst (c_st c) (c_hist c) (c_iR c) (c_ind c) (c_iph c) (c_spec c && ok) (c_corr c) (c_bad c)
-        (c_nok c) (c_ncommit c) (c_nwin c).
+        (c_nok c) (c_ncommit c) (c_nwin c) (c_stalled c) (c_late c).
+
+(* a reader is held after its DB read: run the model's stalled lookup, remember what it answers *)
+Definition chk_stall (c : cst) (space : nat) (o : op) (spec : term) : cst :=
+  let (s1, r) := step (c_st c) o in
+  mkCst s1 (c_hist c) (c_iR c) (c_ind c) (c_iph c) (c_spec c) (c_corr c) (c_bad c)
+        (c_nok c) (c_ncommit c) (c_nwin c)
+        (c_stalled c ++ [(space, (out_term r, spec), c_iR c)]) (c_late c).
+
+(* the n-th held reader of a space *)
+Fixpoint take_stalled (l : list (nat * (term * term) * nat)) (space n : nat)
+  : option ((term * term) * nat) * list (nat * (term * term) * nat) :=
+  match l with
+  | [] => (None, [])
+  | x :: tl =>
+      if Nat.eqb (fst (fst x)) space then
+        match n with
+        | O => (Some (snd (fst x), snd x), tl)
+        | S m => let (r, tl') := take_stalled tl space m in (r, x :: tl')
+        end
+      else let (r, tl') := take_stalled tl space n in (r, x :: tl')
+  end.
+
+Definition chk_land (c : cst) (space n : nat) (obs : term) : cst :=
+  let (s1, _) := step (c_st c) (OLand space n) in
+  match take_stalled (c_stalled c) space n with
+  | (Some (ans, r0), rest) =>
+      mkCst s1 (c_hist c) (c_iR c) (c_ind c) (c_iph c)
+            (c_spec c && term_eqb obs (snd ans)) (c_corr c && term_eqb obs (fst ans)) (c_bad c)
+            (S (c_nok c)) (c_ncommit c) (c_nwin c) rest (c_late c || (r0 <? c_iR c)%nat)
+  | (None, _) => upd_model c s1 false
+  end.
 
 Definition chk_dump (c : cst) (R nd : nat) (ma mr mk mc la lr lk : list term) : cst :=
   let s := c_st c in
@@ -237,7 +281,7 @@ Definition chk_dump (c : cst) (R nd : nat) (ma mr mk mc la lr lk : list term) : 
     set_eqb (dump_lru k_pair (s_cache _ _ (t_res s))) lr &&
     set_eqb (dump_lru k_bytes (s_cache _ _ (t_kv s))) lk in
   mkCst s (c_hist c) R nd (c_iph c) (c_spec c) (c_corr c && same) (c_bad c)
-        (c_nok c) (c_ncommit c) (c_nwin c).
+        (c_nok c) (c_ncommit c) (c_nwin c) (c_stalled c) (c_late c).
 
 Definition chk_op (g : world) (c : cst) (t : term) : cst :=
   match t with
@@ -246,7 +290,7 @@ Definition chk_op (g : world) (c : cst) (t : term) : cst :=
       | Some d =>
           let (s1, _) := step (c_st c) (ONewBlock d) in
           mkCst s1 (c_hist c ++ [d]) (c_iR c) (c_ind c) (c_iph c) (c_spec c) (c_corr c) (c_bad c)
-                (c_nok c) (c_ncommit c) (c_nwin c)
+                (c_nok c) (c_ncommit c) (c_nwin c) (c_stalled c) (c_late c)
       | None => set_bad c
       end
   | TL [TS "s"; r; ph] =>
@@ -280,6 +324,26 @@ Definition chk_op (g : world) (c : cst) (t : term) : cst :=
       | Some rnd, Some ci, Some ct => chk_query c (OQCre rnd ci ct) rnd obs (spec_cre g (c_hist c) rnd ci ct)
       | _, _, _ => set_bad c
       end
+  | TL [TS "sa"; rnd; a] =>
+      match as_nat rnd, as_N a with
+      | Some rnd, Some a => chk_stall c 0 (OSAcct rnd a) (spec_acct g (c_hist c) rnd a)
+      | _, _ => set_bad c
+      end
+  | TL [TS "sr"; rnd; a; ci] =>
+      match as_nat rnd, as_N a, as_N ci with
+      | Some rnd, Some a, Some ci => chk_stall c 1 (OSRes rnd a ci) (spec_res g (c_hist c) rnd a ci)
+      | _, _, _ => set_bad c
+      end
+  | TL [TS "sk"; rnd; TB k] =>
+      match as_nat rnd with
+      | Some rnd => chk_stall c 2 (OSKv rnd k) (spec_kv g (c_hist c) rnd k)
+      | None => set_bad c
+      end
+  | TL [TS "la"; sp; n; obs] =>
+      match as_nat sp, as_nat n with
+      | Some sp, Some n => chk_land c sp n obs
+      | _, _ => set_bad c
+      end
   | TL [TS "za"; rnd; a; obs] =>
       match as_nat rnd, as_N a with
       | Some rnd, Some a => chk_late c rnd obs (spec_acct g (c_hist c) rnd a)
@@ -309,16 +373,18 @@ Definition check (t : term) : term :=
       match as_nat lb, as_bool ca, as_nat na, as_nat nr, as_nat nk, as_list_of as_acct_rec gen with
       | Some lb, Some ca, Some na, Some nr, Some nk, Some gen =>
           let g := genesis_world gen in
-          let c0 := mkCst (init (mkCfg lb ca na nr nk) gen) [] 0 0 0%Z true true false 0 0 0 in
+          let c0 := mkCst (init (mkCfg lb ca na nr nk true) gen) [] 0 0 0%Z true true false 0 0 0 [] false in
           let c := fold_left (chk_op g) ops c0 in
           if c_bad c then v_parse
           else
             let wf := wf_histb g (c_hist c) in
             (* outside the evaluator's guarantees the property does not speak; the model is
                still compared with the implementation *)
-            verdict (negb wf || c_spec c) (c_corr c)
-                    (wf && Nat.ltb 0 (c_nok c) && Nat.ltb 0 (c_ncommit c))
-                    (TL [tb wf; tb (c_spec c); tb (c_corr c); t_nat (c_nok c); t_nat (c_ncommit c); t_nat (c_nwin c)])
+            let detail := TL [tb wf; tb (c_spec c); tb (c_corr c); t_nat (c_nok c); t_nat (c_ncommit c);
+                              t_nat (c_nwin c); tb (c_late c)] in
+            if wf && negb (c_spec c) && c_late c then v_known "late_pending_cache_write" detail
+            else verdict (negb wf || c_spec c) (c_corr c)
+                         (wf && Nat.ltb 0 (c_nok c) && Nat.ltb 0 (c_ncommit c)) detail
       | _, _, _, _, _, _ => v_parse
       end
   | _ => v_parse
